@@ -31,7 +31,7 @@ ASSUMPTIONS = ["single process; the store path's parent is private to the case"]
 
 GOOD_ALGOS = sorted(common.STORE_ALGOS)
 BAD_ALGOS = ["sha256", "SHA256", "sha-256", "SHA-224", "blake2b", "", "MD-5"]
-NSS = [common.DEFAULT_NS, "http://ns.example/other"]
+NSS = [common.DEFAULT_NS, "http://ns.example/other", "ns: v2 #not-a-plain-yaml-scalar", "2.0"]
 KEYS = ["store_depth", "store_width", "store_algorithm", "store_metadata_namespace"]
 
 
@@ -54,9 +54,10 @@ def _case(draw, tier):
         elif k == "store_width":
             reopen[k] = draw(st.integers(1, 4))
         elif k == "store_algorithm":
-            reopen[k] = draw(st.sampled_from(GOOD_ALGOS + BAD_ALGOS))
+            reopen[k] = draw(st.sampled_from(GOOD_ALGOS + BAD_ALGOS + [create[k] + " ", " " + create[k], create[k] + "\n"]))
         else:
-            reopen[k] = draw(st.sampled_from(NSS + [NSS[0] + "/", NSS[0].upper()]))
+            reopen[k] = draw(st.sampled_from(NSS + [NSS[0] + "/", NSS[0].upper(), NSS[0] + "\n", " " + NSS[0], NSS[0] + " ",
+                                                    create[k] + "\n", create[k] + "\t"]))
     enc_c = {k: draw(st.sampled_from(["int", "str"])) for k in KEYS[:2]}
     enc_r = {k: draw(st.sampled_from(["int", "str"])) for k in KEYS[:2]}
     return {"create": create, "reopen": reopen, "enc_c": enc_c, "enc_r": enc_r,
